@@ -53,6 +53,21 @@ def dispAttractive (K p s q dE : ℝ) : Option ℝ :=
 def dispInvPow (K p s q dE : ℝ) : Option ℝ :=
   if K > 0 then dispRepulsive K p s q dE else dispAttractive K p s q dE
 
+/-- the reduction to `(s, q)`: moving the active unit by `x` along the coordinate `d` changes the component
+`d` of the separation to `v d - x`; the squared norm (`vectors.norm_sq`) of the new separation is
+`nsq s q x` with `s = v d` and `q` the sum of the squares of the other components
+(`sum([value ** 2 for index, value in enumerate(old_vector) if index != translation_direction])`). -/
+theorem nsq_vector {ι : Type} [Fintype ι] [DecidableEq ι] (v : ι → ℝ) (d : ι) (x : ℝ) :
+    ∑ i, Function.update v d (v d - x) i * Function.update v d (v d - x) i =
+      nsq (v d) (∑ i ∈ Finset.univ.erase d, v i * v i) x := by
+  unfold nsq
+  rw [← Finset.add_sum_erase Finset.univ _ (Finset.mem_univ d), Function.update_self]
+  congr 1
+  apply Finset.sum_congr rfl
+  intro i hi
+  rw [Function.update_of_ne (Finset.ne_of_mem_erase hi)]
+
+
 /-! ### elementary facts -/
 
 theorem nsq_pos {s q x : ℝ} (hq : 0 < q) : 0 < nsq s q x := by
